@@ -371,6 +371,10 @@ func runMigrateCase(ta *TestApp, seed uint64, idx int, rep *Report, profile stri
 		}
 		body = fmt.Sprintf("GMinter {| lc_denom_nonempty := %s; lc_denom_ok := %s; lc_start := %s; lc_minters := %s |}",
 			zBool(denom != ""), zBool(denom != "" && sdk.ValidateDenom(denom) == nil), zI(c.start.UnixNano()), zList(ts))
+		if pert == "none" && !dupIds {
+			// a configuration the generator built valid under the legacy rules and the new ones alike: the upgrade must not abort on it
+			rep.Eval("C16.valid_legacy_minter_configuration_is_migrated", err == nil, idx, 0, fmt.Sprintf("Migrate2to3 refused an unperturbed valid configuration: %v", err))
+		}
 		if err != nil {
 			expected = ok(false)
 			rep.Count("minter.result.refused")
